@@ -49,11 +49,22 @@ def cases(rng, tier):
     bigs = [C.Case("repair_window", hdr + [5 + i, 1] + data) for i in probes]
     cases.long = (bigw, bigs, probes, k, t)
     cs += [bigw] + bigs
-    for _ in range(10 if tier == "quick" else 100):
+    for i in range(40 if tier == "quick" else 300):
         f, t, z, nsub, al = CG.obj_config(rng, 500)
-        m = C.Case("enc_packets", [f, t, z, nsub, al, rng.range(0, 4)] + CG.rand_data(rng, f))
+        if i % 2 == 0:
+            # uneven partition: blocks of different sizes (long blocks first)
+            t = al * rng.range(1, 4)
+            z = rng.range(2, 5)
+            kt = z * rng.range(2, 9) + rng.range(1, z - 1)
+            f = kt * t - rng.below(t)
+            nsub = 1
+        m = C.Case("enc_packets", [f, t, z, nsub, al, rng.range(1, 4)] + CG.rand_data(rng, f))
         m.tag = "object"
         cs.append(m)
+    # a per-object request for more repair packets than a block may have SOURCE symbols (56403 bounds K, not K + n)
+    hm = C.Case("enc_packets", [19, 1, 2, 1, 1, 56400] + CG.rand_data(rng, 19))
+    hm.tag = "huge_object"
+    cases.huge = hm
     for _ in range(10 if tier == "quick" else 60):
         k = CG.small_k(rng, 60)
         t = rng.choice([1, 3, 8])
@@ -83,6 +94,9 @@ def evaluate(cs, rep, tier):
         if pw is None or any(p is None for p in ps):
             counter.append({"input": w.impl_line()[:600], "expected": "every id below 2^24 producible", "observed": res[w.key()][:60], "oracle": "producible"})
             continue
+        if any(len(p) != 1 for p in ps) or len(pw) != len(singles):
+            counter.append({"input": w.impl_line()[:600], "expected": f"{len(singles)} packets in the window and one per single request", "observed": f"window has {len(pw)}, singles have {[len(p) for p in ps]}", "oracle": "every id below 2^24 producible"})
+            continue
         if pw != [p[0] for p in ps]:
             counter.append({"input": w.impl_line()[:600], "expected": "window = concatenation of its single-packet requests", "observed": "differs", "oracle": "window vs singles"})
         s0 = w.args[6]
@@ -110,6 +124,13 @@ def evaluate(cs, rep, tier):
             want = [(sbn, e) for sbn, k in enumerate(ks) for e in range(k + c.args[5])]
             if p is None or [x[:2] for x in p] != want:
                 counter.append({"input": c.impl_line()[:600], "expected": "per block in order: source ESI 0..K-1 then repair ESI K..", "observed": str([x[:2] for x in (p or [])][:12]), "oracle": "object order"})
+    hm = getattr(cases, "huge", None)
+    if hm is not None:
+        r = C.run_impl([hm], "release")[0]
+        p = pk(r, 1)
+        want = [(sbn, e) for sbn, k in enumerate([10, 9]) for e in range(k + 56400)]
+        if p is None or [x[:2] for x in p] != want:
+            counter.append({"input": " ".join(hm.impl_line().split()[:7]) + " <19 data bytes>", "expected": "per block the K source packets and then exactly the 56400 requested repair packets", "observed": "%s packets" % (len(p) if p else r[:40]), "oracle": "object order with many repair packets"})
     var = [c for c in cs if c.tag == "variants"]
     vres = C.run_impl(var, "release") if var else []
     for c, r in zip(var, vres):
